@@ -8,6 +8,7 @@ from mirsmt.values import Cell, Lazy, Adt, Ref, Obj, UNIT, bv
 from mirsmt.interp import Inconclusive, PathEnd
 
 
+@common.part
 def obligations(chk, prop):
     ix = events.CukeIdx(chk.prog)
     pendings = ((0, 0), (1, 0), (0, 1), (1, 2)) if chk.tier == 'thorough' else ((0, 0), (1, 0))
